@@ -39,7 +39,7 @@ func init() {
 					"For New and for New.AddContext(n).Unify(): Normal/Unified/Context text is produced; the text is parsed by independent reference parsers that count lines by the headers (published format rules) and must describe the original changes at the original ranges; strict reference appliers (no fuzz, no offset, left AND right line numbers checked) must turn Left into Right; mdiff.Read/ReadUnified/ReadGitPatch must return the reference parse (chunk for chunk; one chunk per change command for normal), re-format to identical bytes, and preserve file names and default-format timestamps; the same changes moved down to line numbers around every power of ten up to 10^18 and around 2^31, 2^32, 2^53, 2^62 (really built and applied up to a million lines in front, parsed and read back beyond); every ordered pair of 19 marker-like contents ('-- old', '++ new', '- ', '@@ -1 +1 @@', ...) as last deleted / first inserted line of one change, also through the git wrapper; headers written with non-default time formats (names must survive); parsed patches are kept and verified again after later reads; Diff.Format must equal the format function's output also right after a Format call into a writer that failed. " +
 					"A sample of cases (CR-free alphabet) is also applied with GNU patch (-n/-u/-c) and, for a smaller sample, GNU diff output (normal and -U n) is fed to the readers. " +
 					"A unified read failure is attributed to known finding F5 iff the text has an omitted count and the parse equals the reference parse with End=Start on exactly the omitted-count sides. distinct = hash(Left, Right, n); non-trivial = the diff has a hunk with an empty or single-line side",
-				Required:     []string{"cases", "unified_roundtrips", "normal_roundtrips", "git_roundtrips", "ref_apply_normal", "ref_apply_unified", "ref_apply_context", "empty_range_hunks", "single_line_side_hunks", "fileinfo_roundtrips", "gnu_patch_runs", "gnu_diff_runs", "kept_patches_rechecked", "format_after_failed_write", "large_line_number_cases", "custom_time_format_headers", "marker_like_content_cases"},
+				Required:     []string{"cases", "unified_roundtrips", "normal_roundtrips", "git_roundtrips", "ref_apply_normal", "ref_apply_unified", "ref_apply_context", "empty_range_hunks", "single_line_side_hunks", "fileinfo_roundtrips", "gnu_patch_runs", "gnu_diff_runs", "kept_patches_rechecked", "format_after_failed_write", "large_line_number_cases", "custom_time_format_headers", "marker_like_content_cases", "line_length_sweep_cases"},
 				Exhaustive:   true,
 				Assumptions:  []string{"reference parsers/appliers written from the GNU diffutils manual's format descriptions", "GNU patch 2.7.x and GNU diff 3.x as installed in this image", "an omitted count means 1 (unified), an empty unified range s,0 sits after line s"},
 				CoverPkgs:    []string{"github.com/creachadair/mds/mdiff"},
@@ -1342,6 +1342,36 @@ func runC14(c *fw.Ctx) {
 		if !ok {
 			c.FailKind("panic", map[string]any{"phase": "marker-like contents"}, "panic: %v\n%s", pv, stack)
 		}
+	}
+	// every line length 0..300 and windows around 512, 1000, 1024, 2000, 4096: a
+	// deleted, an inserted and a context line of that length, each followed by
+	// another line
+	if c.Begin(idx + 8100000 + c.Block) {
+		var lens []int
+		for L := 0; L <= 300; L++ {
+			lens = append(lens, L)
+		}
+		for _, m := range []int{512, 1000, 1024, 2000, 4096} {
+			for d := -3; d <= 3; d++ {
+				lens = append(lens, m+d)
+			}
+		}
+		n := 0
+		for li, L := range lens {
+			if li%c.NBlocks != c.Block {
+				continue
+			}
+			x := strings.Repeat("x", L)
+			y := strings.Repeat("y", L)
+			left := []string{"top", x, "old tail", "mid", x + "k", "bottom"}
+			right := []string{"top", y, "new tail", "mid", x + "k", "bottom"}
+			for ctx := 0; ctx <= 1; ctx++ {
+				c14one(c, left, right, ctx, &mdiff.FileInfo{Left: "l", Right: "r"})
+				n++
+			}
+		}
+		c.Add("line_length_sweep_cases", int64(n))
+		c.Add("cases", int64(n))
 	}
 	// random cases; a sample goes through GNU patch / GNU diff
 	nr := c.Pick(2500, 40000)
